@@ -77,9 +77,20 @@ def plane_shape_rule(chk, repo, clause):
             if not good and not any(isinstance(i, Poly) and i.single_atom() is not None and i.single_atom()[0] == 'idx' for i in r.items):
                 good = None
         elif isinstance(r, Poly) and r.single_atom() is not None and r.single_atom()[0] == 'idx' and isinstance(r.single_atom()[2], Slice):
-            sl = r.single_atom()[2]
-            base_ok = any(Poly.atom(r.single_atom()[1]) == nf.attr(m, 'shape') for m in masks)
-            good = base_ok and ((sl.lo == C(1) and sl.hi in (NONE, C(3))) or (sl.lo == C(-2) and sl.hi == NONE))
+            # one slice of mask.shape, or slices of slices: carried out on the positions (0, 1, 2) of a segmented mask
+            chain, a_ = [], r.single_atom()
+            while a_[0] == 'idx' and isinstance(a_[2], Slice):
+                chain.append(a_[2])
+                a_ = a_[1]
+            base_ok = any(Poly.atom(a_) == nf.attr(m, 'shape') for m in masks)
+            pos = (0, 1, 2)
+            try:
+                for sl in reversed(chain):
+                    g_ = lambda x: None if x in (NONE, None) else int(x.const_value())
+                    pos = pos[slice(g_(sl.lo), g_(sl.hi), g_(sl.step))]
+                good = base_ok and pos == (1, 2)
+            except Exception:
+                good = None
         if good is False:
             ok, det = False, f'[{conds_str(p)[:60]}] returns {fmt(r)[:80]}: not (rows, cols) of the mask'
         elif good is True and ok is None:
